@@ -122,6 +122,26 @@ def nearest_f32(fr):
     return best[1]
 
 
+def code_witness(f, xin, w, scale, lo, hi):
+    """the derived field term evaluated exactly at component values whose scaled value is not a tie: a code other than round(clamp(v, lo, hi) * scale) -> text, else None.
+    Only used to turn an unrecognised shape into a refutation."""
+    from laneflow import ceval as CE
+    for v in (-1.0, 1.0, -0.25, 0.75, 0.0, 0.3, -0.9, 2.0, -3.0):
+        c = min(max(v, lo), hi)
+        sv = Fraction(c) * scale
+        fl = sv.numerator // sv.denominator
+        if sv - fl == Fraction(1, 2):
+            continue
+        code = fl + (1 if sv - fl > Fraction(1, 2) else 0)
+        try:
+            got = CE.evaluate(f, {xin: CE.f2b(32, v)})
+        except CE.NoValue:
+            continue
+        if got != code & ((1 << w) - 1):
+            return 'the field is %#x for the component value %r; round(clamp(v, %g, %g) * %d) is %d = %#x (result term: %s)' % (got, v, lo, hi, scale, code, code & ((1 << w) - 1), tm.show(f, 4))
+    return None
+
+
 def norm_cases(suffix, wordT, widths, kind):
     n = len(widths)
     vt, wt = ftype(n), G.scalar(wordT)
@@ -152,11 +172,13 @@ def norm_cases(suffix, wordT, widths, kind):
                 pos += w
                 continue
             q = parse_quant(f)
+            wantS = (1 << w) - 1 if kind == 'unorm' else (1 << (w - 1)) - 1
+            cw = code_witness(f, tm.inp('v', vt.lanes[i] * 8, 32), w, wantS, lo_, hi_)
             if q is None:
-                res.append(R.ob(oid, 'quantisation', R.UNDECIDED, 'not of the form conv(round(clamp*S)): %s' % tm.show(f, 5)))
+                res.append(R.ob(oid, 'quantisation', R.REFUTED if cw else R.UNDECIDED, cw or ('not of the form conv(round(clamp*S)): %s' % tm.show(f, 5)), where=R.where_of(it, f) if cw else None, kernel=kp.source()))
             else:
                 conv, rfn, c, Sc = q
-                want = (1 << w) - 1 if kind == 'unorm' else (1 << (w - 1)) - 1
+                want = wantS
                 x = S.lane('v', vt, i)
                 spec = S.gclamp(x, S.const(32, lo_), S.const(32, hi_)).t
                 msgs = []
@@ -174,7 +196,7 @@ def norm_cases(suffix, wordT, widths, kind):
                     ok = False
                     msgs.append('value is not clamped to [%g,%g]: in case [%s] scaled operand is %s, clamp gives %s' % (lo_, hi_, r[1], r[2], r[3]))
                 else:
-                    res.append(R.ob(oid, 'quantisation', R.UNDECIDED, 'clamp not recognisable: %s' % tm.show(c, 4)))
+                    res.append(R.ob(oid, 'quantisation', R.REFUTED if cw else R.UNDECIDED, cw or ('clamp not recognisable: %s' % tm.show(c, 4)), where=R.where_of(it, f) if cw else None, kernel=kp.source()))
                     pos += w
                     continue
                 if (kind == 'unorm') != (conv == 'fptoui') and w >= 8:
